@@ -132,6 +132,10 @@ pub fn run_prop(ctx: &Ctx) -> PropReport {
     rep.part(|| run_random(ctx, "replicas",
         "C01's scenario space weighted to two local players per peer and 3-4 peers, with desync detection, delay changes and (two-peer) deaths; every scenario is executed three times, replicas 2 and 3 in fresh OS threads (fresh RandomState for every HashMap) and with different handshake random numbers; compared: per-session request-list trace (tick, request kinds, frames, inputs, statuses), every saved game state, per-address event sequences with timestamps, and the per-link sent packet counts (premise: same packets); non-trivial = a peer with several local players or >= 3 peers, > 50 confirmed frames",
         || gen(tier), ctx.tier.pick(3000, 12000), eval));
+    let seed = ctx.seed;
+    rep.part(|| run_enum(ctx, "gossip_replicas",
+        "C10's two-successive-drops scenario (4 peers, second cut-off learnt from gossip while another endpoint is already disconnected), three replicas each: the scan over the endpoint map must not depend on its iteration order",
+        ctx.tier.pick(300, 2000), move |i| super::c10::gossip_case(i, seed), eval, false));
     rep.floors.push(("replicas".into(), 0.3));
     rep.assumptions = vec![
         "hash order cannot be forced; every replica samples one fresh RandomState per map. A dependence that needs one specific order of k keys is missed by 3 replicas with probability about (1/k!)^2..1".into(),
